@@ -84,8 +84,8 @@ def impl_docs(mode, L, R, cfg, how, limit_s=10.0):
     from yamlpath.merger import Merger
     from yamlpath.commands import yaml_merge
     from yamlpath.common import Parsers
-    old = signal.signal(signal.SIGALRM, _alarm)
-    signal.setitimer(signal.ITIMER_REAL, limit_s)
+    old = signal.signal(signal.SIGVTALRM, _alarm)
+    signal.setitimer(signal.ITIMER_VIRTUAL, limit_s)
     saved = yaml_merge.get_doc_mergers
     o_err, o_out = sys.stderr, sys.stdout
     try:
@@ -112,8 +112,8 @@ def impl_docs(mode, L, R, cfg, how, limit_s=10.0):
     finally:
         sys.stderr, sys.stdout = o_err, o_out
         yaml_merge.get_doc_mergers = saved
-        signal.setitimer(signal.ITIMER_REAL, 0)
-        signal.signal(signal.SIGALRM, old)
+        signal.setitimer(signal.ITIMER_VIRTUAL, 0)
+        signal.signal(signal.SIGVTALRM, old)
 
 
 def impl_main(mode, files, cfg, limit_s=20.0):
@@ -135,8 +135,8 @@ def impl_main(mode, files, cfg, limit_s=20.0):
         mg.write_ini(cfg, ini)
         argv += ["-c", ini]
     argv += paths
-    old = signal.signal(signal.SIGALRM, _alarm)
-    signal.setitimer(signal.ITIMER_REAL, limit_s)
+    old = signal.signal(signal.SIGVTALRM, _alarm)
+    signal.setitimer(signal.ITIMER_VIRTUAL, limit_s)
     o_argv, o_out, o_err = sys.argv, sys.stdout, sys.stderr
     out = io.StringIO()
     try:
@@ -160,8 +160,8 @@ def impl_main(mode, files, cfg, limit_s=20.0):
         return mg.classify_exc(e)
     finally:
         sys.argv, sys.stdout, sys.stderr = o_argv, o_out, o_err
-        signal.setitimer(signal.ITIMER_REAL, 0)
-        signal.signal(signal.SIGALRM, old)
+        signal.setitimer(signal.ITIMER_VIRTUAL, 0)
+        signal.signal(signal.SIGVTALRM, old)
 
 
 def expected_count(mode, nl, nr):
